@@ -2,6 +2,8 @@ mod decl;
 mod decl_id;
 mod decl_tree;
 mod scope;
+#[cfg(feature = "verif")]
+mod verif;
 
 pub use decl::LuaDeclExtra;
 pub use decl::{LocalAttribute, LuaDecl};
